@@ -62,8 +62,8 @@ def column(draw):
 def table(draw):
     n = draw(st.integers(1, 6))
     # names that the primary-key heuristic does NOT react to (it looks for "_name", "_id", "id_" anywhere, or "id")
-    # half of the tables take `rich_names` (leading underscore, camelCase, UPPER_CASE): all legal column names
-    pool = names if draw(st.booleans()) else gen_ir.rich_names
+    # half of the tables take `rich_names` (leading underscore, camelCase, UPPER_CASE) and legal non-ASCII identifiers
+    pool = names if draw(st.booleans()) else st.one_of(gen_ir.rich_names, gen_ir.rich_names, gen_ir.unicode_names)
     ns = draw(st.lists(pool.filter(lambda s: s != "id" and "_id" not in s and "_name" not in s and "id_" not in s), min_size=n, max_size=n, unique=True))
     cols = [draw(column()) for _ in ns]
     pk = draw(st.sampled_from(["none", "explicit", "inferable"]))
